@@ -32,7 +32,7 @@ for rnd, incname in ((1, '_incoming'), (2, '_incoming2'), (3, '_incoming3'), (4,
         except Exception:
             pass
         row = matrix.get(mkey, {})
-        caught = sorted(c for c, r in row.items() if isinstance(r, dict) and r.get('rc') == 1)
+        caught = sorted(c for c, r in row.items() if isinstance(r, dict) and not c.startswith('_') and r.get('rc') == 1)
         own = prop in caught
         meta = {
             'id': sid, 'property': prop, 'round': rnd, 'source': 'independent sub-agent given only the property text and a scratch worktree of /repo' + (' (round %d: told which ideas were already used, asked for different ones)' % rnd if rnd > 1 else ''),
@@ -56,11 +56,11 @@ with open(os.path.join(HERE, 'seeded', 'README.md'), 'w') as f:
     for key in sorted(matrix):
         if key.startswith('F'):
             row = matrix[key]
-            f.write('| %s | %s |\n' % (key, ' '.join(sorted(c for c, r in row.items() if isinstance(r, dict) and r.get('rc') == 1))))
+            f.write('| %s | %s |\n' % (key, ' '.join(sorted(c for c, r in row.items() if isinstance(r, dict) and not c.startswith('_') and r.get('rc') == 1))))
     f.write('\n## Negative controls (seeded/_negative): behaviour-preserving edits, every check must stay silent\n\n| patch | checks that raised anything |\n|---|---|\n')
     for key in sorted(matrix):
         if key.startswith('N'):
             row = matrix[key]
-            noisy = sorted(c for c, r in row.items() if isinstance(r, dict) and r.get('rc') != 0)
+            noisy = sorted(c for c, r in row.items() if isinstance(r, dict) and not c.startswith('_') and r.get('rc') != 0)
             f.write('| %s | %s |\n' % (key, ' '.join(noisy) or 'none'))
 print(len(rows), 'seeds organised; not caught by own check:', [r[0] for r in rows if not r[4]], 'caught by none:', [r[0] for r in rows if not r[3]])
